@@ -21,6 +21,49 @@ from hypothesis import strategies as st
 from tqv import gen, ref
 from tqv.core import SubCheck, Violation, req
 
+# ------------------------------------------------------------------------------------------
+# caller-owned arguments must come back unchanged and a repeated call must give the same answer (added after seeded
+# change C04-s4 - partial_channel writing the extended operators into the caller's Kraus list - was missed)
+# ------------------------------------------------------------------------------------------
+def _snap(o):
+    if isinstance(o, np.ndarray):
+        return ("a", o.shape, str(o.dtype), o.copy())
+    if isinstance(o, (list, tuple)):
+        return ("l", type(o).__name__, [_snap(x) for x in o])
+    return ("v", repr(o))
+
+
+def _same(s, o):
+    if s[0] == "a":
+        return isinstance(o, np.ndarray) and o.shape == s[1] and str(o.dtype) == s[2] and np.array_equal(o, s[3])
+    if s[0] == "l":
+        return isinstance(o, (list, tuple)) and type(o).__name__ == s[1] and len(o) == len(s[2]) and all(_same(a, b) for a, b in zip(s[2], o))
+    return repr(o) == s[1]
+
+
+def _flat_out(o):
+    if isinstance(o, (list, tuple)):
+        return [y for x in o for y in _flat_out(x)]
+    return [np.asarray(o)]
+
+
+def _pure(fn):
+    name = getattr(fn, "__name__", "function")
+
+    def wrapped(*args, **kwargs):
+        snaps = [_snap(a) for a in args], {k: _snap(v) for k, v in kwargs.items()}
+        out = fn(*args, **kwargs)
+        ok = all(_same(sa, a) for sa, a in zip(snaps[0], args)) and all(_same(snaps[1][k], v) for k, v in kwargs.items())
+        req(ok, f"{name} modified an argument owned by the caller", "args-mutated:" + name)
+        again = fn(*args, **kwargs)
+        a1, a2 = _flat_out(out), _flat_out(again)
+        req(len(a1) == len(a2) and all(x.shape == y.shape and np.allclose(x, y, rtol=0, atol=1e-12 * max(1.0, float(np.max(np.abs(x))) if x.size else 1.0)) for x, y in zip(a1, a2)), f"a second identical call of {name} returned a different result", "history-dependent:" + name)
+        return out
+
+    wrapped.__name__ = name
+    return wrapped
+
+
 PROPERTY = "C04"
 RULE = (
     "Cases are drawn by Hypothesis: a linear map given by r in 1..5 pairs (A_k, B_k) with input/output dimensions "
@@ -226,6 +269,8 @@ def _apply_case(draw):
 def check_apply(case):
     from toqito.channel_ops import apply_channel
 
+    apply_channel = _pure(apply_channel)
+
     m = case["map"]
     pairs = build_pairs(m)
     x = build_x(case["xseed"], m["i1"], m["i2"], case["xsrc"], case["xcplx"])
@@ -244,6 +289,8 @@ def check_apply(case):
 # ------------------------------------------------------------------------------------------
 def check_k2c(case):
     from toqito.channel_ops import kraus_to_choi
+
+    kraus_to_choi = _pure(kraus_to_choi)
 
     m = case["map"]
     pairs = build_pairs(m)
@@ -312,6 +359,8 @@ def _check_family(fam, m, jref, scale, xseeds, what, hermitian_rule=True):
 def check_c2k(case):
     from toqito.channel_ops import choi_to_kraus
 
+    choi_to_kraus = _pure(choi_to_kraus)
+
     m = case["map"]
     pairs = build_pairs(m)
     jref = choi_input(m, pairs)
@@ -347,6 +396,8 @@ def _c2k_hrect_case(draw):
 
 def check_c2k_hrect(case):
     from toqito.channel_ops import choi_to_kraus
+
+    choi_to_kraus = _pure(choi_to_kraus)
 
     i1, o1, i2, o2 = case["i1"], case["o1"], case["i2"], case["o2"]
     n = i1 * o1
@@ -384,6 +435,8 @@ def _chain_case(draw):
 
 def check_chain(case):
     from toqito.channel_ops import apply_channel, choi_to_kraus, kraus_to_choi
+
+    apply_channel, choi_to_kraus, kraus_to_choi = _pure(apply_channel), _pure(choi_to_kraus), _pure(kraus_to_choi)
 
     m = case["map"]
     pairs = build_pairs(m)
@@ -488,6 +541,8 @@ def _partial_expected(m, pairs, dr, dc, pos, x):
 def _partial_call(case, rep):
     from toqito.channel_ops import partial_channel
 
+    partial_channel = _pure(partial_channel)
+
     dr, dc, pos = case["dr"], case["dc"], case["pos"]
     x = build_x(case["xseed"], gen.prod(dr), gen.prod(dc), case["xsrc"], case["xcplx"])
     f = case["dimform"]
@@ -545,6 +600,8 @@ def nt_partial(case):
 # ------------------------------------------------------------------------------------------
 def check_natural(case):
     from toqito.channel_ops import natural_representation
+
+    natural_representation = _pure(natural_representation)
 
     m = case["map"]
     pairs = build_pairs(m)
